@@ -20,8 +20,11 @@ EmptyFn == [x \in {} |-> 0]
 CInit ==
   [ ok |-> TRUE, prop |-> "", why |-> "",
     served |-> EmptyFn,      \* call token -> [n, how]
-    emitted |-> {},          \* <<server, event id, k>>
+    emitted |-> {},          \* <<server, event id, k>>: the server announced it would emit k
+    sentAt |-> EmptyFn,      \* k -> time the EmitEvent carrying k left the owner's client
+    subAt |-> EmptyFn,       \* subscriber task -> time its subscription was acknowledged
     lastEv |-> EmptyFn,      \* <<task, event id>> -> last k seen
+    lastAny |-> EmptyFn,     \* task -> last k seen of any event id
     nextItem |-> EmptyFn,    \* channel cookie -> next item number the consumer must see
     sentItems |-> EmptyFn,   \* channel token of the producer -> items started
     open |-> {},             \* ids of API operations that have not returned
@@ -41,6 +44,18 @@ CInit ==
 Bad(S, p, w) == IF S.ok THEN [S EXCEPT !.ok = FALSE, !.prop = p, !.why = w] ELSE S
 
 StartsWith(s, p) == Len(s) >= Len(p) /\ SubSeq(s, 1, Len(p)) = p
+
+\* C04 (client level, completeness): between the first event a subscriber received (or the
+\* acknowledgement of its subscription) and the event `upto`, every matching event that actually
+\* left the owner's client must have been received.  `upto` = 0 means "up to the end".
+LastOf(S, task) == IF task \in DOMAIN S.lastAny THEN S.lastAny[task] ELSE 0
+Lost(S, task, srv, all, sub, upto) ==
+  \E e \in S.emitted :
+     /\ e[1] = srv /\ (all \/ e[2] = sub)
+     /\ e[3] \in DOMAIN S.sentAt
+     /\ e[3] > LastOf(S, task)
+     /\ (upto = 0 \/ e[3] < upto)
+     /\ (LastOf(S, task) > 0 \/ (task \in DOMAIN S.subAt /\ S.sentAt[e[3]] > S.subAt[task]))
 
 SeqToSet(q) == {q[i] : i \in 1..Len(q)}
 
@@ -62,6 +77,10 @@ OnApi(S, r) ==
                want == IF k \in DOMAIN S1.nextItem THEN S1.nextItem[k] ELSE 1 IN
            IF r.d.k # want THEN Bad(S1, "C05", "a channel item was lost, duplicated or reordered")
            ELSE [S1 EXCEPT !.nextItem = Put(@, k, want + 1)]
+      [] r.op = "events" /\ r.d.seen < r.d.want ->
+           \* the stream ended (service destroyed): everything sent before must have arrived
+           IF Lost(S1, r.task, r.d.srv, r.d.all, r.d.sub, 0) THEN Bad(S1, "C04", "an event emitted while the subscription was active was not delivered before the stream ended")
+           ELSE S1
       [] r.op = "create_object" /\ r.res = "ok" /\ "cookie" \in DOMAIN r.d ->
            [S1 EXCEPT !.born = Put(@, r.d.cookie, started), !.foundEarly = @ \ {r.d.cookie}]
       [] r.op = "destroy_object" /\ "cookie" \in DOMAIN r.d -> [S1 EXCEPT !.died = Put(@, r.d.cookie, S.now)]
@@ -104,7 +123,9 @@ OnFact(S, r) ==
          IF <<r.d.srv, r.d.ev, r.d.k>> \notin S.emitted THEN Bad(S, "C04", "a subscriber received an event that was not emitted")
          ELSE IF ~r.d.all /\ r.d.ev # r.d.sub THEN Bad(S, "C04", "a subscriber received an event id it did not subscribe to")
          ELSE IF r.d.k <= last THEN Bad(S, "C04", "a subscriber received an event twice or out of order")
-         ELSE [S EXCEPT !.lastEv = Put(@, key, r.d.k)]
+         ELSE IF Lost(S, r.task, r.d.srv, r.d.all, r.d.sub, r.d.k) THEN Bad(S, "C04", "an event emitted while the subscription was active was not delivered to the subscriber")
+         ELSE [S EXCEPT !.lastEv = Put(@, key, r.d.k), !.lastAny = Put(@, r.task, r.d.k)]
+    [] r.what = "subscribed" -> [S EXCEPT !.subAt = Put(@, r.task, S.now)]
     [] r.what = "truth" -> [S EXCEPT !.truth = r.d.objs]
     [] r.what = "dentries" -> [S EXCEPT !.dspec = r.d.entries]
     [] r.what = "destroying" -> [S EXCEPT !.dying = @ \cup {r.d.cookie}]
@@ -126,6 +147,7 @@ CStep(S0, r) ==
     [] r.t = "tap" ->
          \* C12: a payload delivered to a client is in the encoding epoch of its negotiated version
          IF r.dir = "rx" /\ ~r.epochOk THEN Bad(S, "C12", "a payload with encodings newer than the recipient's version was delivered: " \o r.m.k)
+         ELSE IF r.dir = "tx" /\ r.m.k = "EmitEvent" /\ r.pv >= 0 THEN [S EXCEPT !.sentAt = Put(@, r.pv, S.now)]
          ELSE S
     [] r.t = "fault" -> [S EXCEPT !.faulty = @ \cup {r.cl}]
     [] r.t = "cause" -> [S EXCEPT !.cause = r.cause]
